@@ -39,6 +39,9 @@ func runC03(o opts) error {
 		for i := 0; i < nq; i++ {
 			scns = append(scns, c03.Queries(rng))
 		}
+		for i := 0; i < nq/5; i++ {
+			scns = append(scns, c03.F3AfterTimeout(rng))
+		}
 	}
 	sink, err := trace.NewSink(o.out, o.shards)
 	if err != nil {
